@@ -39,7 +39,20 @@ func init() {
 		if !strings.Contains(src, "§") {
 			src = strings.ReplaceAll(src, "func P()", "func §P()")
 		}
-		p := &Prog{ID: "both", Src: src}
+		p := &Prog{ID: "both", Mode: map[string]string{}}
+		// leading lines of the form: import "path"
+		for strings.HasPrefix(src, "import \"") {
+			nl := strings.IndexByte(src, '\n')
+			p.Imports = append(p.Imports, strings.Trim(strings.TrimPrefix(src[:nl], "import "), "\" "))
+			src = src[nl+1:]
+		}
+		p.Src = src
+		for _, a := range args[1:] {
+			kv := strings.SplitN(a, "=", 2)
+			if len(kv) == 2 {
+				p.Mode[kv[0]] = kv[1]
+			}
+		}
 		if strings.Contains(src, "\n//--\n") {
 			p.Chunks = strings.Split(src, "\n//--\n")
 		}
